@@ -20,7 +20,7 @@ build() { # build <out> <pkg> [extra go build args]
 
 overlay() { # sync-shim overlay for C08, generated from the current tree into $1
   build .build/mkoverlay ./cmd/mkoverlay
-  .build/mkoverlay "$REPO" overlay/vsync/vsync.go.txt "$1" hap crypto 2>/dev/null || { echo "INFRASTRUCTURE ERROR: overlay generation failed" >&2; exit 2; }
+  .build/mkoverlay "$REPO" overlay/vsync/vsync.go.txt "$1" go:hap go:crypto 2>/dev/null || { echo "INFRASTRUCTURE ERROR: overlay generation failed" >&2; exit 2; }
 }
 
 YIELD_PKGS="yield:hap yield:crypto yield:util yield:tlv8 yield:characteristic yield:service yield:accessory yield:db yield:hap/pair yield:hap/http yield:hap/data yield:hap/endpoint yield:crypto/chacha20poly1305 yield:crypto/hkdf yield:crypto/curve25519 yield:event yield:rtp yield:log yield:."
